@@ -97,6 +97,13 @@ theorem C16_stream_error_reconnect_policy (r p c : Bool) (is : List In) (k : Err
   reconnect_policy _ (C16_invariant r p c is) hc k
     (run_unknownErrRaises { reconnectOpt := r, passive := p, control := c } is) hp hf hb
 
+/- The policy theorem speaks of the option's value in the state the stream error arrives in: an application that changes the option at run
+   time (input `setReconnect`) gets the new behaviour from the next stream error on. -/
+example : (run { reconnectOpt := true } [.connectReq, .dConnected 0, .success, .setReconnect false, .streamError .ack, .loop]).2 =
+    [.created 0, .up, .authAttempt false, .authed, .entityStreamError .ack, .closed 0, .downNear, .downAll] := by decide
+example : (run { reconnectOpt := false } [.connectReq, .dConnected 0, .setReconnect true, .streamError .ack, .loop]).2 =
+    [.created 0, .up, .authAttempt false, .entityStreamError .ack, .closed 0, .downNear, .downAll, .created 1] := by decide
+
 /-- With the encryption control layer in the stack: when the server confirms the key upload of a passive login, the control layer
     reboots the connection — it closes it, and when the loop delivers the deferred 'disconnected' exactly one new connection is
     started, with the passive flag switched off and the reboot flag cleared. -/
